@@ -79,6 +79,8 @@ class Scenario:
         self.notes = []
         self.cost = {}        # per-op event counters (C14/C15)
         self.subject = None
+        self.deferred = []
+        self.orphan_stack = []
         self.stale = False    # a recorded handle was removed without unadopt (C13 histories)
 
     # ------------------------------------------------------------ helpers
@@ -200,8 +202,12 @@ class Scenario:
             # fields are dropped whether or not Drop::drop panicked
             while pl.strong:
                 hv, tgt = pl.strong.pop(0)
+                snap = self.dead_snapshot(tgt)
                 try:
                     E.drop_in_place(self.tmp(hv), RC, None)
+                    if snap is not None and snap != self.dead_snapshot(tgt):
+                        raise Violation('C16' if 'C16' in self.oracles else 'C02', 'drop-of-dead-handle-has-effect',
+                                        'dropping a handle to the already destroyed object %d changed its state %r -> %r' % (tgt, snap, self.dead_snapshot(tgt)))
                 except Panic as p:
                     if first is not None:
                         raise Abort('second panic while dropping the fields of payload %s' % v.id)
@@ -221,6 +227,18 @@ class Scenario:
         if first is not None:
             raise first
 
+    def dead_snapshot(self, idx):
+        """(strong, weak, allocated) of an object that is already marked dead, else None"""
+        if not (self.oracles & {'C16', 'C02'}) or idx not in self.objs:
+            return None
+        o = self.rcbox(idx)
+        if not o.live:
+            return ('released',)
+        s = self.strong(idx)
+        if is_sym(s) or s not in (0, MASK):
+            return None
+        return (s, repr(self.weakc(idx)), o.live, self.field(idx, 2) is UNINIT, self.field(idx, 3) is UNINIT)
+
     def cost_snapshot(self):
         cc = self.E.call_counts
         return [self.E.alloc_events, cc.get('cycle_refs', 0),
@@ -228,6 +246,12 @@ class Scenario:
 
     def on_destroy(self, idx):
         oi = self.objs[idx]
+        if 'C05' in self.oracles:
+            for name, x in self.handles.items():
+                if x.get('updtor') is not None and x['obj'] == idx:
+                    raise Violation('C05', 'upgrade-resurrects-dying',
+                                    'Weak::upgrade (called inside the destructor of value %s) returned a handle to object %d, and the object was destroyed while that handle was still held' % (x['updtor'], idx),
+                                    self.model_values(None))
         if 'C01' in self.oracles:
             self.check_not_reachable(idx, 'destructor ran')
         oi.destroyed = True
@@ -447,6 +471,11 @@ class Scenario:
                             self.model_values(None))
 
     def on_abort(self, a):
+        if self.opts.get('abort_ok') == 'clone-of-dead':
+            if getattr(self, 'clone_of_dead', None):
+                return
+            raise Violation('C16', 'unexpected-abort', 'operation %d aborted although no handle to a destroyed object was cloned: %s' % (self.op_index, a),
+                            self.model_values(None))
         if not self.opts.get('abort_ok'):
             raise Violation(self.opts.get('target', 'C16'), 'unexpected-abort',
                             'operation %d aborted the process: %s' % (self.op_index, a), self.model_values(None))
@@ -479,14 +508,24 @@ class Scenario:
             self.set_handle(op['as'], 'rc', v, idx)
         elif k == 'clone':
             x = self.h(op['h'], 'rc')
+            dead = None
+            if 'C16' in self.oracles and x['obj'] in self.objs:
+                s = self.strong(x['obj']) if self.rcbox(x['obj']).live else 0
+                dead = (not is_sym(s)) and s in (0, MASK)
+                self.clone_of_dead = dead
             v = self.call('Rc', 'Clone', 'clone', x['ptr'])
+            if dead:
+                raise Violation('C16', 'clone-of-dead-returned', 'Rc::clone of a handle to the destroyed object %d returned a handle instead of aborting' % x['obj'],
+                                self.model_values(None))
             self.set_handle(op['as'], 'rc', v, x['obj'])
         elif k == 'drop':
             x = self.h(op['h'], 'rc')
             del self.handles[op['h']]
             self.pre_drop(x['obj'])
-            E.drop_in_place(x['ptr'], RC, None)
-            self.post_drop(x['obj'], before)
+            try:
+                E.drop_in_place(x['ptr'], RC, None)
+            finally:
+                self.post_drop(x['obj'], before)
         elif k == 'extras':
             # n additional program-held strong handles (symbolic in sym mode)
             x = self.h(op['h'], 'rc')
@@ -516,8 +555,10 @@ class Scenario:
                 oi.extra = oi.extra - 1
                 v = self.make_rc(oi)
             self.pre_drop(oi.idx)
-            E.drop_in_place(self.tmp(v), RC, None)
-            self.post_drop(oi.idx, before)
+            try:
+                E.drop_in_place(self.tmp(v), RC, None)
+            finally:
+                self.post_drop(oi.idx, before)
         elif k == 'wextras':
             x = self.h(op['h'], 'rc')
             oi = self.objs[x['obj']]
@@ -602,10 +643,14 @@ class Scenario:
                 self.check_upgrade(x, True, hv)
                 if op.get('as'):
                     self.set_handle(op['as'], 'rc', hv, tgt)
+                    if self.dtor_stack:
+                        self.handles[op['as']]['updtor'] = self.dtor_stack[-1]
                 else:
                     self.pre_drop(tgt)
-                    E.drop_in_place(self.tmp(hv), RC, None)
-                    self.post_drop(tgt, None)
+                    try:
+                        E.drop_in_place(self.tmp(hv), RC, None)
+                    finally:
+                        self.post_drop(tgt, None)
             else:
                 self.obs(op, 'none')
                 self.check_upgrade(x, False, None)
@@ -760,8 +805,10 @@ class Scenario:
                 raise ScriptError('dec_strong without a matching inc')
             oi.extra_real.pop()
             self.pre_drop(oi.idx)
-            self.call('Rc', None, 'decrement_strong_count', E.read(x['ptr']))
-            self.post_drop(oi.idx, None)
+            try:
+                self.call('Rc', None, 'decrement_strong_count', E.read(x['ptr']))
+            finally:
+                self.post_drop(oi.idx, None)
         elif k == 'w_into_raw':
             x = self.h(op['w'], 'weak')
             del self.handles[op['w']]
@@ -787,6 +834,30 @@ class Scenario:
                 self.last_panic = p
                 if 'expect_panic' in op and not op['expect_panic']:
                     raise
+        elif k == 'set_strong' or k == 'set_weak':
+            # unit harness: arbitrary counter value (no validity assumption)
+            x = self.h(op['h'], 'rc')
+            v = op['v']
+            val = self.symvar(v) if isinstance(v, str) else v
+            E.write(Ptr(self.objs[x['obj']].box, (0 if k == 'set_strong' else 1,)), val)
+        elif k == 'drop_all_wextras':
+            # counter generalisation for Weak::drop (lemma weak-drop-non-last, checked in C04): w-1 drops of a
+            # non-last Weak only decrement the weak counter; the last one is executed for real
+            oi = self.objs[op['obj']]
+            if oi.wextra_real:
+                while oi.wextra_real:
+                    E.drop_in_place(self.tmp(oi.wextra_real.pop()), WEAK, None)
+            elif is_sym(oi.wextra):
+                if E.branch(z3.UGT(oi.wextra, 0)):
+                    w = E.read(Ptr(oi.box, (1,)))
+                    E.write(Ptr(oi.box, (1,)), s_sub(w, s_sub(oi.wextra, 1)))
+                    oi.wextra = 0
+                    E.drop_in_place(self.tmp(self.make_weak(oi)), WEAK, None)
+                else:
+                    oi.wextra = 0
+        elif k == 'drop_if':
+            if op['h'] in self.handles:
+                self.run_op({'op': 'drop', 'h': op['h']})
         elif k == 'note':
             pass
         else:
@@ -829,6 +900,16 @@ class Scenario:
                 raise Violation('C05', 'upgrade-dangling', 'upgrade of Weak::new() returned a handle')
             return
         oi = self.objs[x['obj']]
+        if self.dtor_stack and not (oi.destroyed or oi.unwrapped):
+            # inside a destructor the target may be a doomed peer. Black-box rule: a handle that upgrade returns
+            # must keep its object alive for as long as it is held (checked when a destructor starts, see
+            # on_destroy); None is only acceptable if the object is destroyed before the operation returns.
+            if got_some:
+                if self.obj_of_rc(hv) != oi.idx:
+                    raise Violation('C05', 'upgrade-identity', 'upgraded handle points to a different object')
+            else:
+                self.deferred.append((oi.idx, False, self.dtor_stack[-1]))
+            return
         dead = oi.destroyed or oi.unwrapped
         if got_some and dead:
             raise Violation('C05', 'upgrade-resurrects', 'Weak::upgrade returned a handle to destroyed object %d' % oi.idx,
@@ -844,8 +925,12 @@ class Scenario:
     def pre_drop(self, idx):
         self._pre_destroyed = set(i for i, o in self.objs.items() if o.destroyed)
         self._orphan = None
-        if 'C03' in self.oracles and not self.stale and idx in self.objs:
-            self._orphan = self.orphan_condition(idx)
+        orp = None
+        if self.oracles & {'C03', 'C05', 'C10', 'C11'} and not self.stale and idx in self.objs:
+            orp = self.orphan_condition(idx)
+        if 'C03' in self.oracles:
+            self._orphan = orp
+        self.orphan_stack.append(orp if orp is not None else (set(), False))
 
     def alive(self, i):
         o = self.objs[i]
@@ -877,9 +962,21 @@ class Scenario:
         return (S, cond)
 
     def post_drop(self, idx, before):
-        pass
+        self.orphan_stack.pop()
 
     def after_op(self, op):
+        if self.deferred and not self.dtor_stack:
+            df, self.deferred = self.deferred, []
+            for (j, got_some, where) in df:
+                dead = self.objs[j].destroyed or self.objs[j].unwrapped
+                if got_some and dead:
+                    raise Violation('C05', 'upgrade-resurrects-dying',
+                                    'inside the destructor of value %s, Weak::upgrade returned a handle to object %d, which the same operation destroyed' % (where, j),
+                                    self.model_values(None))
+                if not got_some and not dead:
+                    raise Violation('C05', 'upgrade-fails-live',
+                                    'inside the destructor of value %s, Weak::upgrade returned None for object %d, which is still alive after the operation' % (where, j),
+                                    self.model_values(None))
         if 'C06' in self.oracles and self.opts.get('count_after_each', True):
             self.check_counts()
         if 'C08' in self.oracles:
@@ -964,6 +1061,7 @@ class Scenario:
         if self.opts.get('expect_all_freed'):
             for i, oi in self.objs.items():
                 if not oi.destroyed and not oi.unwrapped:
+                    self.subject = [j for j, o in self.objs.items() if not o.destroyed and not o.unwrapped]
                     raise Violation('C04', 'not-destroyed', 'object %d is still alive at the end of a history that dropped every handle' % i,
                                     self.model_values(None))
             for oid, o in self.E.heap.items():
